@@ -477,7 +477,8 @@ int AsmContext::link()
       while ((address & mask) != 0) { address++; }
     }
 
-    symbols.append(symbol, address);
+    // A label of the program with the name of an imported function.
+    if (symbols.append(symbol, address) != 0) { return -1; }
 
     uint8_t *code;
     uint32_t function_offset;
